@@ -1,7 +1,10 @@
 SPECIFICATION Spec
 CONSTANTS
   Kids = {1, 2}
-  MaxOwn = 2
+  MaxOwn = 1
+  MaxDepth = 1
+  MaxTls = 2
+  MaxCell = 1
   ParentWalksChildTls = TRUE
 INVARIANT ThreadsOK
 PROPERTY Isolation
